@@ -443,26 +443,50 @@ fn honest<B: SimField, E: FieldElement<BaseField = B>, H: ElementHasher<BaseFiel
         }
     }
 
-    // reuse of the prover instance for a second proof
-    let c2: Vec<E> = (0..n).map(|_| rand_elem::<E>(&mut rng)).collect();
-    let f2 = coset_evaluate::<B, E>(&c2, domain);
-    let mut channel2 = SimProverChannel::<E, H>::new();
-    let second = guard(|| {
-        prover.build_layers(&mut channel2, f2.clone());
-        let pos2 = channel2.draw_positions(cfg.num_queries, domain, 1);
-        let proof2 = prover.build_proof(&pos2);
-        (pos2, proof2)
-    });
-    match second {
-        Ok((pos2, proof2)) => {
-            let claimed2: Vec<E> = pos2.iter().map(|&p| f2[p]).collect();
-            let v3 = real_verify::<B, E, H>(&cfg, proof2, channel2.commitments.clone(), &claimed2, &pos2, max_degree);
-            ctx.event_with("verify.reuse", v3.accepted() as u64, || v3.short());
-            if !v3.accepted() {
-                ctx.violation(format!("C15/reused-prover-proof-rejected {}", v3.short()), ctxt());
+    // reuse of the prover instance for further proofs: the same options, but the domain size (the
+    // number of evaluations handed to build_layers) may change from proof to proof
+    let mut sizes = vec![cfg.log_domain];
+    for delta in [1i32, -1, 2, -2][ch.index("reuse.first", 4)..].iter().take(2) {
+        let ld = cfg.log_domain as i32 + delta;
+        if ld >= (cfg.blowup.ilog2() + 3) as i32 && ld <= 13 {
+            let c2 = FriCfg { log_domain: ld as u32, ..cfg.clone() };
+            if c2.well_formed() && c2.num_queries < c2.domain() {
+                sizes.insert(0, ld as u32);
             }
-        },
-        Err(p) => ctx.violation(format!("C15/reused-prover-panic {}", p.signature()), format!("{}:{} {}; {}", p.file, p.line, p.msg, ctxt())),
+        }
+    }
+    sizes.truncate(2 + ch.index("reuse.count", 2));
+    for (round, ld) in sizes.iter().enumerate() {
+        let cfg2 = FriCfg { log_domain: *ld, ..cfg.clone() };
+        if *ld != cfg.log_domain {
+            ctx.fault("prover_reused_with_another_domain_size");
+        }
+        let (n2, domain2) = (cfg2.n(), cfg2.domain());
+        let c2: Vec<E> = (0..n2).map(|_| rand_elem::<E>(&mut rng)).collect();
+        let f2 = coset_evaluate::<B, E>(&c2, domain2);
+        let mut channel2 = SimProverChannel::<E, H>::new();
+        let second = guard(|| {
+            prover.build_layers(&mut channel2, f2.clone());
+            let pos2 = channel2.draw_positions(cfg2.num_queries, domain2, 1);
+            let proof2 = prover.build_proof(&pos2);
+            (pos2, proof2)
+        });
+        let what = format!("reuse #{} of the prover instance with a domain of {} (first proof: {})", round + 1, domain2, domain);
+        match second {
+            Ok((pos2, proof2)) => {
+                let claimed2: Vec<E> = pos2.iter().map(|&p| f2[p]).collect();
+                let v3 = real_verify::<B, E, H>(&cfg2, proof2, channel2.commitments.clone(), &claimed2, &pos2, n2 - 1);
+                ctx.event_with("verify.reuse", v3.accepted() as u64 ^ (*ld as u64) << 8, || format!("{what}: {}", v3.short()));
+                if !v3.accepted() {
+                    ctx.violation(format!("C15/reused-prover-proof-rejected {}", v3.short()), format!("{what}; {}", ctxt()));
+                    return;
+                }
+            },
+            Err(p) => {
+                ctx.violation(format!("C15/reused-prover-panic {}", p.signature()), format!("{what}: {}:{} {}; {}", p.file, p.line, p.msg, ctxt()));
+                return;
+            },
+        }
     }
 }
 
